@@ -22,6 +22,8 @@ package obfs
 //                   arbitrary >=9-byte datagrams, which the spec defines as valid packets of some
 //                   payload) are delivered exactly by the real deobfuscator.
 //   sal-concurrent  (c13_concurrent_test.go) 8 writers + 4 readers on one wrapped socket.
+//   sal-alias       (c13_alias_test.go) keys / payloads passed as windows into larger buffers: the
+//                   caller's memory is never written and the key does not follow later changes of it.
 //
 // Every captured wire packet (key, plaintext, wire) goes to $VERIF_OUT/c13-wire-<part>.jsonl;
 // /verif/checkers/py/c13_blake.py (hashlib.blake2b, independent of x/crypto) recomputes each one.
@@ -289,7 +291,14 @@ type vfC13Wire struct {
 }
 
 func vfC13NewPair(key []byte, nonblock bool, inboxCap int) (*vfC13Pair, error) {
-	p := &vfC13Pair{key: vfExact(key)}
+	// each side gets its own copy of the key: two independent parties sharing a secret
+	return vfC13NewPairKeys(vfExact(key), vfExact(key), key, nonblock, inboxCap)
+}
+
+// vfC13NewPairKeys hands keyA / keyB to the constructor exactly as given (the aliasing part
+// passes slices with spare capacity); refKey is the key VALUE both stand for.
+func vfC13NewPairKeys(keyA, keyB, refKey []byte, nonblock bool, inboxCap int) (*vfC13Pair, error) {
+	p := &vfC13Pair{key: vfExact(refKey)}
 	p.a = &vfC13Ep{name: "A", inbox: make(chan vfC13Pkt, inboxCap), nonblock: nonblock}
 	p.b = &vfC13Ep{name: "B", inbox: make(chan vfC13Pkt, inboxCap), nonblock: nonblock}
 	peers := map[string]*vfC13Ep{"A": p.a, "B": p.b}
@@ -297,11 +306,10 @@ func vfC13NewPair(key []byte, nonblock bool, inboxCap int) (*vfC13Pair, error) {
 	p.a.onWire = func(to vfC13Addr, w []byte) { p.capture("A", to, w) }
 	p.b.onWire = func(to vfC13Addr, w []byte) { p.capture("B", to, w) }
 	var err error
-	// each side gets its own copy of the key: two independent parties sharing a secret
-	if p.wa, err = WrapPacketConnSalamander(p.a, vfExact(key)); err != nil {
+	if p.wa, err = WrapPacketConnSalamander(p.a, keyA); err != nil {
 		return nil, err
 	}
-	if p.wb, err = WrapPacketConnSalamander(p.b, vfExact(key)); err != nil {
+	if p.wb, err = WrapPacketConnSalamander(p.b, keyB); err != nil {
 		return nil, err
 	}
 	if p.wa == nil || p.wb == nil {
@@ -335,6 +343,7 @@ type vfC13Case struct {
 	JunkAfter  []int  `json:"junk_after"`
 	BufSize    int    `json:"read_buf"`
 	SaltHex    string `json:"salt,omitempty"`
+	Note       string `json:"note,omitempty"`
 	id         uint64
 	tag        uint64
 }
